@@ -737,7 +737,7 @@ fn scan_files(ctx: &GroupCtx<'_>) -> Vec<Vec<FileInfo>> {
     walk.on_visit = spinner_tick;
     // The report file has been created already, and it is not one of the files to report.
     let output = config.output.as_ref().map(|p| Path::from(p).canonicalize());
-    walk.run(ctx.config.input_paths(), |path| {
+    walk.run(ctx.config.input_paths_logged(Some(ctx.log)), |path| {
         file_info_or_log_err(path, &ctx.devices, ctx.log)
             .into_iter()
             .filter(|info| Some(&info.path) != output.as_ref())
